@@ -298,6 +298,46 @@ def run(chk):
         if got != want and first is None:
             first = ("field initialisers and `this`: implementation prints %s, 'initialisers run in their declaring class' gives %s" % (got, want),
                      {"source": src, "kind": "initialiser-this"})
+    # a static field is one slot per declaring class: written or read through a subclass's name (or an instance of a subclass) it is
+    # the same slot; a subclass's own statics are separate
+    sts = []
+    for _ in range(120 if chk.thorough else 12):
+        a, b, c = rng.randrange(1, 9), rng.randrange(10, 19), rng.randrange(20, 29)
+        w1, w2 = rng.randrange(30, 39), rng.randrange(40, 49)
+        ops, want = [], []
+        cur = {"s": a, "t": b, "u": c}
+        for _k in range(rng.randrange(2, 6)):
+            kind = rng.choice(["Bs", "Cs", "As", "Bt", "Ct", "Cu", "is"])
+            val = rng.choice([w1, w2, rng.randrange(50, 99)])
+            if kind == "Bs":
+                ops.append("SB.s = %d;" % val); cur["s"] = val
+            elif kind == "Cs":
+                ops.append("SC.s = %d;" % val); cur["s"] = val
+            elif kind == "As":
+                ops.append("SA.s = %d;" % val); cur["s"] = val
+            elif kind == "Bt":
+                ops.append("SB.t = %d;" % val); cur["t"] = val
+            elif kind == "Ct":
+                ops.append("SC.t = %d;" % val); cur["t"] = val
+            elif kind == "Cu":
+                ops.append("SC.u = %d;" % val); cur["u"] = val
+            else:
+                ops.append("oc.s = %d;" % val); cur["s"] = val
+            ops.append("echo(SA.s); echo(SB.s); echo(SC.s); echo(SB.t); echo(SC.t); echo(SC.u); echo(oc.s + ob.t);")
+            want += [str(cur["s"])] * 3 + [str(cur["t"])] * 2 + [str(cur["u"]), str(cur["s"] + cur["t"])]
+        src = ("class SA { public static int s = %d; public constructor() -> SA = default; }\n"
+               "class SB extends SA { public static int t = %d; public constructor() -> SB = default; }\n"
+               "class SC extends SB { public static int u = %d; public constructor() -> SC = default; }\n"
+               "function main() -> void { SC oc = new SC(); SB ob = new SB(); %s }" % (a, b, c, " ".join(ops)))
+        sts.append((src, want))
+    _l5, stimpl, _m5, _inc5 = evallib.run_programs([(d[0], []) for d in sts], with_model=False)
+    for (src, want), a in zip(sts, stimpl):
+        chk.count(("static-through-subclass", src))
+        got = evallib.split_result(a).get("echo_lines") if a.startswith("ok ") else [a[:120]]
+        if got != want and first is None:
+            first = ("statics through subclass names: implementation prints %s, one slot per declaring class gives %s" % (got, want),
+                     {"source": src, "kind": "static-through-subclass"})
+    kinds["static-through-subclass programs"] = len(sts)
     kinds["initialiser-this programs"] = len(its)
     kinds["destructor-return programs"] = len(drs)
     kinds["default-binding programs"] = len(dbs)
